@@ -29,9 +29,13 @@ def dict_to_path(as_dict):
     entities = [None] * len(as_dict["entities"])
     # run constructor for dict kwargs
     for entity_index, entity in enumerate(as_dict["entities"]):
-        entities[entity_index] = loaders[entity["type"]](
-            points=entity["points"], closed=entity["closed"]
-        )
+        if entity["type"] == "Arc":
+            # only an arc stores whether it is closed explicitly
+            entities[entity_index] = Arc(
+                points=entity["points"], closed=entity["closed"]
+            )
+        else:
+            entities[entity_index] = loaders[entity["type"]](points=entity["points"])
     result["entities"] = entities
 
     return result
